@@ -18,6 +18,9 @@ let table : (string * (z list -> z list)) list = [
   ("hair_spans", run_hair_spans);
   ("dash_new", run_dash_new);
   ("dash", run_dash);
+  ("stroke_geo", (fun _ -> [Model.Zneg (Model.XI (Model.XO (Model.XO Model.XH)))]));
+  ("gather", run_gather);
+  ("pat_px", (fun _ -> [Model.Zneg (Model.XI (Model.XO (Model.XO Model.XH)))]));
   ("grad_new", run_grad_new);
   ("grad_px", (fun _ -> [Model.Zneg (Model.XI (Model.XO (Model.XO Model.XH)))]));
   ("stroker_hist", (fun _ -> [Model.Zneg (Model.XI (Model.XO (Model.XO Model.XH)))]));
